@@ -968,6 +968,8 @@ func UnmarshalCandidate(raw string) (Candidate, error) { //nolint:cyclop
 			return nil, err
 		}
 
+		// srflx, prflx and relay configs have no TCP type field: keep what was parsed
+		candidate.tcpType = tcpType
 		candidate.setExtensions(extensions)
 
 		return candidate, nil
@@ -987,6 +989,7 @@ func UnmarshalCandidate(raw string) (Candidate, error) { //nolint:cyclop
 			return nil, err
 		}
 
+		candidate.tcpType = tcpType
 		candidate.setExtensions(extensions)
 
 		return candidate, nil
@@ -1008,6 +1011,7 @@ func UnmarshalCandidate(raw string) (Candidate, error) { //nolint:cyclop
 			return nil, err
 		}
 
+		candidate.tcpType = tcpType
 		candidate.setExtensions(extensions)
 
 		return candidate, nil
